@@ -198,3 +198,30 @@ def OptLam.ofTree : Tree → Option OptLam
 end
 
 end OQ
+
+namespace OQ
+mutual
+/-- every path hangs off an identifier (the only paths the parser builds, grammar.py:433-475) -/
+def Expr.pathsOk : Expr → Bool
+  | .ident _ => true
+  | .attr o _ => (match o with
+                  | .ident _ => true
+                  | .attr _ _ => true
+                  | _ => false) && o.pathsOk
+  | .lit _ _ => true
+  | .list xs => xs.pathsOk
+  | .binop _ l r => l.pathsOk && r.pathsOk
+  | .compare _ l r => l.pathsOk && r.pathsOk
+  | .boolop _ l r => l.pathsOk && r.pathsOk
+  | .unary _ e => e.pathsOk
+  | .named _ e => e.pathsOk
+  | .call _ a => a.pathsOk
+  | .coll ow _ l => ow.pathsOk && l.pathsOk
+def Exprs.pathsOk : Exprs → Bool
+  | .nil => true
+  | .cons h t => h.pathsOk && t.pathsOk
+def OptLam.pathsOk : OptLam → Bool
+  | .none => true
+  | .some _ b => b.pathsOk
+end
+end OQ
